@@ -135,3 +135,72 @@ impl PV {
         self.commitments + seq![self.a1, self.b, self.a] + self.li + self.ri
     }
 }
+pub open spec fn decompress_seq(c: Seq<CP>) -> Seq<P> { Seq::new(c.len(), |q: int| cp_decompress(c[q])->Some_0) }
+// the per-proof values as a function of the inputs, the challenges and the batch weight
+pub open spec fn pv_of(w: Scalar, ch: (Scalar, Scalar, Seq<Scalar>, Scalar), st: RangeStatement<P>, pr: RangeProof<P>, n: usize) -> PV {
+    PV { w: w, y: ch.0, z: ch.1, e: ch.3, es: ch.2, r1: pr.r1, s1: pr.s1, d1: pr.d1@, n: n as nat, m: st.commitments@.len(),
+         t: spec_ilog2(st.commitments@.len() as usize) as nat, promises: st.minimum_value_promises@, commitments: st.commitments@,
+         a: cp_decompress(pr.a)->Some_0, a1: cp_decompress(pr.a1)->Some_0, b: cp_decompress(pr.b)->Some_0,
+         li: decompress_seq(pr.li@), ri: decompress_seq(pr.ri@) }
+}
+// accumulation over the proofs of a batch, in order
+pub open spec fn gi_acc(pvs: Seq<PV>, q: int) -> Scalar
+    decreases pvs.len()
+{ if pvs.len() == 0 { Scalar::ZERO } else { let prev = gi_acc(pvs.drop_last(), q); if q < pvs.last().nm() { s_add(prev, pvs.last().gi_term(q)) } else { prev } } }
+pub open spec fn hi_acc(pvs: Seq<PV>, q: int) -> Scalar
+    decreases pvs.len()
+{ if pvs.len() == 0 { Scalar::ZERO } else { let prev = hi_acc(pvs.drop_last(), q); if q < pvs.last().nm() { s_add(prev, pvs.last().hi_term(q)) } else { prev } } }
+pub open spec fn g_acc(pvs: Seq<PV>, k: int) -> Scalar
+    decreases pvs.len()
+{ if pvs.len() == 0 { Scalar::ZERO } else { s_add(g_acc(pvs.drop_last(), k), s_mul(pvs.last().w, pvs.last().d1[k])) } }
+pub open spec fn h_acc(pvs: Seq<PV>) -> Scalar
+    decreases pvs.len()
+{ if pvs.len() == 0 { Scalar::ZERO } else { pvs.last().h_after(h_acc(pvs.drop_last())) } }
+pub open spec fn dyn_s_acc(pvs: Seq<PV>) -> Seq<Scalar>
+    decreases pvs.len()
+{ if pvs.len() == 0 { Seq::empty() } else { dyn_s_acc(pvs.drop_last()) + pvs.last().dyn_scalars() } }
+pub open spec fn dyn_p_acc(pvs: Seq<PV>) -> Seq<P>
+    decreases pvs.len()
+{ if pvs.len() == 0 { Seq::empty() } else { dyn_p_acc(pvs.drop_last()) + pvs.last().dyn_points() } }
+// the group element the verifier compares with the identity
+pub open spec fn batch_residual(pvs: Seq<PV>, max_mn: nat, padding: nat, ext: nat, table: Seq<P>, g_base_vec: Seq<P>, h_base: P) -> P {
+    let gi = Seq::new(max_mn, |q: int| gi_acc(pvs, q));
+    let hi = Seq::new(max_mn, |q: int| hi_acc(pvs, q));
+    let stat = interleave_seq(gi, hi) + Seq::new(padding, |i: int| Scalar::ZERO);
+    let dyn_s = dyn_s_acc(pvs) + Seq::new(ext, |k: int| g_acc(pvs, k)) + seq![h_acc(pvs)];
+    let dyn_p = dyn_p_acc(pvs) + g_base_vec + seq![h_base];
+    p_add(msm(stat, table), msm(dyn_s, dyn_p))
+}
+pub proof fn lemma_deref_interleave(a: Seq<&Scalar>, b: Seq<&Scalar>)
+    ensures deref_s(interleave_seq(a, b)) =~= interleave_seq(deref_s(a), deref_s(b))
+    decreases a.len() + b.len()
+{
+    if a.len() == 0 { } else {
+        lemma_deref_interleave(b, a.drop_first());
+        assert(deref_s(a).drop_first() =~= deref_s(a.drop_first()));
+        assert(deref_s(seq![a[0]] + interleave_seq(b, a.drop_first())) =~= seq![*a[0]] + deref_s(interleave_seq(b, a.drop_first())));
+    }
+}
+pub open spec fn gen_padding(st: RangeStatement<P>) -> nat {
+    (2 * st.generators.bp_gens.gens_capacity * st.generators.bp_gens.party_capacity - 2 * st.generators.bp_gens.gens_capacity * st.commitments@.len()) as nat
+}
+pub open spec fn batch_pvs(ws: Seq<Scalar>, trs: Seq<Transcript>, statements: Seq<RangeStatement<P>>, proofs: Seq<RangeProof<P>>) -> Seq<PV> {
+    Seq::new(proofs.len(), |p: int| pv_of(ws[p], member_challenges(trs[p].log(), statements, proofs, p), statements[p], proofs[p], statements[0].generators.bp_gens.gens_capacity))
+}
+pub open spec fn bcs_of(bc: Seq<(Scalar, Scalar, Vec<Scalar>, Scalar)>) -> Seq<(Scalar, Scalar, Seq<Scalar>, Scalar)> {
+    Seq::new(bc.len(), |p: int| (bc[p].0, bc[p].1, bc[p].2@, bc[p].3))
+}
+// state of the verifier's accumulators after the proofs in pvs (hidden from the inner loops; revealed where it is updated and used)
+#[verifier::opaque]
+pub open spec fn acc_ok(pvs: Seq<PV>, bcs: Seq<(Scalar, Scalar, Seq<Scalar>, Scalar)>, statements: Seq<RangeStatement<P>>, proofs: Seq<RangeProof<P>>, n: usize,
+    max_mn: nat, ext: nat, gi: Seq<Scalar>, hi: Seq<Scalar>, g: Seq<Scalar>, h: Scalar, ds: Seq<Scalar>, dp: Seq<P>) -> bool
+{
+    &&& forall|p: int| 0 <= p < pvs.len() ==> #[trigger] pvs[p] == pv_of(pvs[p].w, bcs[p], statements[p], proofs[p], n) && pvs[p].w != Scalar::ZERO
+    &&& gi.len() == max_mn && hi.len() == max_mn && g.len() == ext
+    &&& forall|q: int| 0 <= q < max_mn ==> #[trigger] gi[q] == gi_acc(pvs, q)
+    &&& forall|q: int| 0 <= q < max_mn ==> #[trigger] hi[q] == hi_acc(pvs, q)
+    &&& forall|k: int| 0 <= k < ext ==> #[trigger] g[k] == g_acc(pvs, k)
+    &&& h == h_acc(pvs)
+    &&& ds == dyn_s_acc(pvs)
+    &&& dp == dyn_p_acc(pvs)
+}
